@@ -12,7 +12,10 @@ Oracle   : on the IMPLEMENTATION (`hx events str`, `hx events iter`, `hx events 
            the scalars of what follows it.
 Tie      : the model pipeline (`mx events str|buf16|buf8`) yields the same event line as the implementation
            (text, spans, error position).
-Theorems : coq/Properties/C05.v (about the scanner model's scan_block_scalar and its helpers on the string back-end).
+Theorems : coq/Properties/C05.v (about the scanner model's scan_block_scalar and its helpers on the string back-end;
+           what is covered and what is not is listed at the top of that file).
+Known    : known_findings_c05.jsonl — three input classes on which the unchanged implementation violates the property;
+           each is a decidable predicate on the generated case (`known_class`).
 """
 import json
 import os
@@ -624,10 +627,11 @@ def check_C05(tier, seed):
     res.notes.append("theorems (scanner model, string back-end, all inputs of the class): nls/chomping arithmetic; content line through "
                      "the buffered-peek loop and the raw fast path; skip_spaces_to / skip_block_scalar_indent (narrow and wide path) / "
                      "skip_first_line_indent; scan_block_scalar = block_value for literal AND folded style, every chomping, explicit "
-                     "or auto indentation >= 1, all line lists with >= 1 content line (final newline + less indented line / end of "
-                     "input; end of input right after the last content line) and for content-less scalars (end-of-stream path, "
-                     "enclosing-collection follower).  C05_full (all shapes, header comments, CR/CRLF, column-0 content, buffered "
-                     "back-ends) is stated and refuted on the faithful model by the three known-finding classes.")
+                     "or auto indentation (content indentation 0 included), header white space / comment, all line lists with >= 1 "
+                     "content line (final newline then a less indented line / end of input / `...` at column 0; end of input right "
+                     "after the last content line) and for content-less scalars (end-of-stream path, enclosing-collection "
+                     "follower).  C05_full (all shapes, CR/CRLF, buffered back-ends) is stated and refuted on the faithful model by "
+                     "the three known-finding classes.")
     res.assumptions += [
         "reading R1: the end of the input terminates a line like a line break (yaml-test-suite JEF9-02)",
         "reading R2: an indentation indicator at top level counts from column 0 (parent indentation -1 read as 0)",
